@@ -14,10 +14,10 @@
   * `exception_in_unwritten_block_fails_the_test` / `…_fails_the_setup` / `…_in_thread…`: a test (a setup_suite hook, an lcc.Thread
     of a test) whose block is left by an exception of any kind is not successful, and the acts after the block do not run.
 -/
-import LccModel.Model.RunAccept
+import LccModel.Lemmas.C02AttachSample
 
 namespace LccModel.C02Attach
-open LccModel.Report LccModel.Run LccModel.Session
+open LccModel.Report LccModel.Run LccModel.Session LccModel.Run.AttachSample
 
 /-- Leaving a `prepare_attachment` block by an exception fires no event, in every session state and for every thread: whatever was
     fired before is still what was fired. -/
@@ -27,17 +27,6 @@ theorem block_left_by_exception_reports_nothing (s s' : St) (tid : Nat) (h : Ses
   split at h
   · cases h
   · injection h with h; subst h; exact ⟨rfl, rfl⟩
-
-/-- a test whose body is: a block whose content producer raises `k` (nothing written yet), then a log -/
-def tBody (k : ExcKind) : TestSpec := ⟨"t", 0, false, false, [], [], [.attachBlock [.log .info, .raise k], .log .info]⟩
-/-- … the same inside an `lcc.Thread` of the test -/
-def tThread (k : ExcKind) : TestSpec := ⟨"u", 1, false, false, [], [], [.thread [.attachBlock [.raise k], .log .info], .log .info]⟩
-def P (k : ExcKind) : Proj :=
-  ⟨[], [SuiteSpec.mk "s" 0 false (some ([], [.attachBlock [.attachBlock [.raise k]], .log .info])) none none none [] [tBody k, tThread k] []],
-   1, false, false⟩
-
-/-- the body's `exit` record: the script ran to its end -/
-def bodyExited (o : TaskOut) (p : Path) : Bool := o.items.contains (Item.user 0 (.body p) "exit")
 
 /-- Whatever the exception (plain, AbortTest / AbortSuite / AbortAllTests, the AbortTest of an interrupted API call, SystemExit, any
     other BaseException): raised inside a block before its file is written, it fails the test, and the body does not go on. -/
